@@ -69,7 +69,7 @@ type ReaderScn struct {
 }
 
 type WriterScn struct {
-	Flavour    string `json:"flavour"`           // writer | stringwriter
+	Flavour    string `json:"flavour"`           // writer | stringwriter | richwriter
 	FailAt     int    `json:"fail_at_write"`     // index of the failing call, -1 = never
 	ByteBudget int    `json:"byte_budget"`       // -1 = unlimited; crossing write is partial+error
 	Partial    int    `json:"partial,omitempty"` // bytes accepted by the failing call (FailAt mode)
